@@ -1121,6 +1121,27 @@ theorem bind_byname_unknown_rejected (m : List (String × RVal)) (cols : List Co
           rw [hnil] at hmem
           cases hmem
 
+/-- **Every value of a by-name row is taken by some bind marker** — whatever the marker list looks like, in
+particular when it REPEATS names (`… a = :v AND b = :v`): a successful bind writes one cell per MARKER (a repeated
+name serializes the same value again), but it can only succeed if every key / field is the name of at least one
+marker: fields are counted by name, not by the number of columns serialized, so a repeated marker can never make up
+for a field that no marker takes (whose value would otherwise be silently dropped). -/
+theorem bind_byname_every_value_taken (m : List (String × RVal)) (cols : List Col) (sv : SV)
+    (h : fromSerializable (.byName m) cols = .ok sv) (k : String) (hk : k ∈ m.map (·.1)) :
+    ∃ c, c ∈ cols ∧ c.name = k := by
+  apply Classical.byContradiction
+  intro hno
+  obtain ⟨e, he⟩ := bind_byname_unknown_rejected m cols k hk (fun c hc hn => hno ⟨c, hc, hn⟩)
+  rw [h] at he; cases he
+
+/-- Non-vacuity, the seeded shape: fields `a`, `b`; markers `a, a` (as many columns as fields, `b` never taken) is
+refused naming `b`; markers `a, a, b` succeed with THREE cells. -/
+example :
+    let row := RowVal.byName [("a", .scalar .i32 [0, 0, 0, 1]), ("b", .scalar .str [97])]
+    fromSerializable row [⟨"a", .native .int⟩, ⟨"a", .native .int⟩] = .error (.noColumnWithName "b") ∧
+    fromSerializable row [⟨"a", .native .int⟩, ⟨"a", .native .int⟩, ⟨"b", .native .text⟩]
+      = .ok ⟨[0, 0, 0, 4, 0, 0, 0, 1, 0, 0, 0, 4, 0, 0, 0, 1, 0, 0, 0, 1, 97], 3⟩ := ⟨rfl, rfl⟩
+
 example :
     fromSerializable (.seq [.scalar .i32 [0, 0, 0, 1], .scalar .str [97]]) [⟨"a", .native .int⟩, ⟨"b", .native .text⟩]
       = .ok ⟨[0, 0, 0, 4, 0, 0, 0, 1, 0, 0, 0, 1, 97], 2⟩ ∧
